@@ -235,6 +235,11 @@ impl<'tcx> D<'tcx> {
             o.push(("fn_full", J::S(self.tcx.def_path_str_with_args(*did, args))));
             o.push(("fn_args", self.generic_args(args, env)));
             o.push(("fn_local", J::B(did.is_local())));
+            if did.is_local() {
+                let sm = self.tcx.sess.source_map();
+                let lo = sm.lookup_char_pos(self.tcx.def_span(*did).lo());
+                o.push(("fn_def_line", J::I(lo.line as i128)));
+            }
             if let Some(tr) = self.tcx.trait_of_assoc(*did) {
                 o.push(("fn_trait", J::S(self.path(tr))));
             }
@@ -413,12 +418,17 @@ impl<'tcx> D<'tcx> {
             DefKind::Fn => "fn",
             DefKind::AssocFn => "assoc_fn",
             DefKind::Closure => "closure",
+            DefKind::AssocConst { .. } | DefKind::Const { .. } => "const",
             _ => return None,
         };
-        if !tcx.is_mir_available(did) {
+        let is_const = kind_s == "const";
+        if is_const && tcx.generics_of(did).count() == 0 {
+            return None; // evaluated in `items`
+        }
+        if !is_const && !tcx.is_mir_available(did) {
             return None;
         }
-        let body: &Body<'tcx> = tcx.optimized_mir(did);
+        let body: &Body<'tcx> = if is_const { tcx.mir_for_ctfe(did) } else { tcx.optimized_mir(did) };
         let env = TypingEnv::post_analysis(tcx, did);
 
         let mut o: Vec<(&'static str, J)> = vec![];
